@@ -9,6 +9,8 @@ EFF = {"pa": "print('a')", "pae": "print('a', end='')", "pn": "print()", "pas": 
        "im": "import helper_mod", "cb": "hook()",
        "wsv": "saved_out.write('c')", "pcr": "print('a', end='\\r')", "pcrb": "print('a\\rb')",
        # the program edits the interpreter's module table itself: drops an entry that was there, rebinds another
+       # the program points sys.stdout at a stream of its own and leaves it there, already closed
+       "rso": "sys.stdout = __import__('io').StringIO(); sys.stdout.close()",
        "dm": "sys.modules.pop('colorsys', None); sys.modules['this_is_not_a_module'] = sys; sys.modules['json'] = 'not json'"}
 import colorsys  # noqa: E402,F401  (in the module table before any behaviour starts)
 import json as _json_for_table  # noqa: E402,F401
